@@ -239,6 +239,8 @@ where
   ) -> ReadResult<Vec<DataSample<D>>> {
     // Clear notification buffer. This must be done first to avoid race conditions.
     self.drain_read_notifications();
+    #[cfg(rustdds_verif)]
+    crate::verif::sched::yp("t1");
 
     self.fill_and_lock_local_datasample_cache()?;
     let mut selected = self.select_keys_for_access(read_condition);
@@ -935,9 +937,13 @@ where
             // 1. synchronously store waker to background thread (must rendezvous)
             // 2. try take_bare again, in case something arrived just now
             // 3. if nothing still, return pending.
+            #[cfg(rustdds_verif)]
+            crate::verif::sched::yp("p1");
             datareader
               .simple_data_reader
               .set_waker(Some(cx.waker().clone()));
+            #[cfg(rustdds_verif)]
+            crate::verif::sched::yp("p2");
             match datareader.take_bare(1, ReadCondition::not_read()) {
               Err(e) => Poll::Ready(Some(Err(e))),
               Ok(mut v) => match v.pop() {
